@@ -430,7 +430,13 @@ pub fn io_noise(rng: &mut Rng) -> Vec<(u32, u8)> {
     (0..n)
         .map(|_| {
             let a = loop {
-                let a = if rng.chance(1, 2) { 0xfee000 + rng.below(0x100) as u32 } else { 0xffff20 + rng.below(0xca) as u32 };
+                // half of the picks from the system / interrupt / bus / refresh control registers of the
+                // real chip (MDCR, SYSCR, BRCR, ISCR, IER, ISR, IPRA, IPRB, DASTCR, ..., BCR, DRCRB, RTMCSR, ...)
+                let a = match rng.below(4) {
+                    0 | 1 => *rng.pick(&[0xfee011u32, 0xfee012, 0xfee013, 0xfee014, 0xfee015, 0xfee016, 0xfee018, 0xfee019, 0xfee01a, 0xfee01c, 0xfee01d, 0xfee01e, 0xfee01f, 0xfee024, 0xfee027, 0xfee028, 0xfee029, 0xfee02a, 0xfee030, 0xfee032, 0xfee03c, 0xfee03e]),
+                    2 => 0xfee000 + rng.below(0x100) as u32,
+                    _ => 0xffff20 + rng.below(0xca) as u32,
+                };
                 if !crate::refmodel::mem::is_special_io(a) && !(0xfee020..=0xfee026).contains(&a) {
                     break a;
                 }
